@@ -63,7 +63,7 @@ type Target struct {
 	sync            bool               // denotes whether this cache is in sync with target
 	meta            *metadata.Metadata // metadata associated with target
 	lat             *latency.Latency   // latency measurements
-	tsmu            sync.Mutex         // protects latest timestamp
+	tsmu            sync.Mutex         // protects latest timestamp and sync
 	ts              time.Time          // latest timestamp for an update
 	excludedMeta    stringset.Set      // set of metadata not to generate update for
 	futureThreshold time.Duration      // how far in the future an update can be accepted
@@ -494,6 +494,27 @@ func (t *Target) checkTimestamp(ts time.Time) {
 	}
 }
 
+// latest returns the latest timestamp recorded for the target.
+func (t *Target) latest() time.Time {
+	defer t.tsmu.Unlock()
+	t.tsmu.Lock()
+	return t.ts
+}
+
+// synced reports whether the target is in sync. The flag is written by the
+// target's update stream and by the periodic metadata refresh.
+func (t *Target) synced() bool {
+	defer t.tsmu.Unlock()
+	t.tsmu.Lock()
+	return t.sync
+}
+
+func (t *Target) setSync(sync bool) {
+	defer t.tsmu.Unlock()
+	t.tsmu.Lock()
+	t.sync = sync
+}
+
 func (t *Target) resetTimestamp() {
 	defer t.tsmu.Unlock()
 	t.tsmu.Lock()
@@ -524,8 +545,8 @@ func (t *Target) gnmiUpdate(n *pb.Notification) (*ctree.Leaf, error) {
 			if !ok {
 				return nil, fmt.Errorf("%v : has value %v of type %T, expected boolean", metadata.Path(metadata.Sync), u.Val, u.Val)
 			}
-			t.sync = tv.BoolVal
-			t.meta.SetBool(metadata.Sync, t.sync)
+			t.setSync(tv.BoolVal)
+			t.meta.SetBool(metadata.Sync, tv.BoolVal)
 		case metadata.Connected:
 			tv, ok := u.GetVal().GetValue().(*pb.TypedValue_BoolVal)
 			if !ok {
@@ -564,13 +585,13 @@ func (t *Target) gnmiUpdate(n *pb.Notification) (*ctree.Leaf, error) {
 				return nil, ErrStale
 			}
 		case t.futureThreshold > 0 && nts.Sub(Now()) > t.futureThreshold:
-			if t.ts.UnixNano() <= 0 {
+			if latest := t.latest(); latest.UnixNano() <= 0 {
 				// This is the first accepted update as t.ts is uninitialized (assuming
 				// the first accepted timestamp is > 0 (1970-01-01 00:00:00 UTC).
 				log.Warningf("Accepting the first update with a timestamp in the future %s", prototext.Format(n))
-			} else if nts.Sub(t.ts) <= t.futureThreshold {
+			} else if nts.Sub(latest) <= t.futureThreshold {
 				if log.V(1) {
-					log.Warningf("Accepting non-first update with a timestamp in the future but not exceeding the threshold comparing with latestTimestamp (%v): %s", t.ts, prototext.Format(n))
+					log.Warningf("Accepting non-first update with a timestamp in the future but not exceeding the threshold comparing with latestTimestamp (%v): %s", latest, prototext.Format(n))
 				}
 			} else {
 				t.meta.AddInt(metadata.FutureCount, 1)
@@ -584,7 +605,7 @@ func (t *Target) gnmiUpdate(n *pb.Notification) (*ctree.Leaf, error) {
 			return nil, nil
 		}
 		// Compute latency for updated leaves.
-		if t.sync && realData {
+		if realData && t.synced() {
 			// Record latency for post-sync target updates.  Exclude metadata updates.
 			t.lat.Compute(T(n.GetTimestamp()))
 		}
@@ -598,7 +619,7 @@ func (t *Target) gnmiUpdate(n *pb.Notification) (*ctree.Leaf, error) {
 		t.meta.AddInt(metadata.LeafCount, 1)
 		t.meta.AddInt(metadata.AddCount, 1)
 		// Compute latency for new leaves.
-		if t.sync {
+		if t.synced() {
 			// Record latency for post-sync target updates.  Exclude metadata updates.
 			t.lat.Compute(T(n.GetTimestamp()))
 		}
